@@ -92,7 +92,7 @@ func vhArgOp() Operator {
 }
 
 // vhAnyCount is the size of the catalogue of awkward values (C08 part b).
-const vhAnyCount = 27
+const vhAnyCount = 30
 
 // vhAnyValue returns entry k of the catalogue.
 // vhSpecial, when set, replaces catalogue entry 3 (an initialised Stack): it
@@ -162,10 +162,22 @@ func vhAnyValue(k int) any {
 	case 23:
 		return []any{"AND", "q"}
 	case 24:
-		return "stdout"
+		return &vhPub{3, "b"}
 	case 25:
-		return 1
+		var p *vhPub
+		return p
 	case 26:
+		pp := &vhPub{3, "b"}
+		var np *vhPub
+		if nondetChoice(2) == 0 {
+			return &pp
+		}
+		return &np
+	case 27:
+		return "stdout"
+	case 28:
+		return 1
+	case 29:
 		return LogLevel(4)
 	}
 	return nil
